@@ -99,7 +99,41 @@ def tie_for(full, enabled=True):
         return _Null()
     mod = importlib.import_module(name)
     _guard(mod)
-    return _Tagged(mod.tie(full), name)
+    # constructor tie (harness/s_init.py, Model/StratInit.lean): one `init_*` line per real run, entered after (=
+    # wrapped around) whatever the strategy's own tie puts on `__init__`
+    init_mod = importlib.import_module("s_init")
+    _guard(init_mod)
+    return _Both(_Tagged(mod.tie(full), name), _Tagged(init_mod.tie(full), "s_init"))
+
+
+class _Both:
+    """two ties around one run: `first` is entered first and left last"""
+    def __init__(self, first, second):
+        self.first, self.second = first, second
+
+    def __enter__(self):
+        self.first.__enter__()
+        try:
+            self.second.__enter__()
+        except BaseException:
+            self.first.__exit__(None, None, None)
+            raise
+        return self
+
+    def __exit__(self, *a):
+        try:
+            self.second.__exit__(*a)
+        finally:
+            self.first.__exit__(*a)
+        return False
+
+    @property
+    def lines(self):
+        return self.second.lines + self.first.lines
+
+    @property
+    def impl(self):
+        return self.second.impl + self.first.impl
 
 
 class _Tagged:
